@@ -699,12 +699,16 @@ func vrSignDesc(d, e []byte, chunks [][]byte) string {
 
 // vrCheckSign runs SignHashed on the scripted stream and compares with the reference.
 func vrCheckSign(c *vrCase, d *big.Int, e []byte, chunks [][]byte, maxRead int, tag string) {
+	vrCheckSignPriv(c, d, vrB32(d), e, chunks, maxRead, tag)
+}
+
+// vrCheckSignPriv: as vrCheckSign, with the private key handed over in the given encoding (possibly shorter than 32 bytes).
+func vrCheckSignPriv(c *vrCase, d *big.Int, db []byte, e []byte, chunks [][]byte, maxRead int, tag string) {
 	wr, ws, used, ok := vrRefSign(d, vrInt(e), chunks)
 	if !ok {
 		panic(fmt.Sprintf("vrCheckSign: the scripted stream has no usable nonce: d=%x e=%x rand=%s tag=%s", d, e, vrChunksHex(chunks), tag))
 	}
 	want := fmt.Sprintf("r=%s,s=%s,chunks_used=%d", vrHex(vrB32(wr)), vrHex(vrB32(ws)), used)
-	db := vrB32(d)
 	d0, e0 := append([]byte{}, db...), append([]byte{}, e...)
 	rd := vrNewReader(chunks...)
 	rd.maxRead = maxRead
@@ -825,6 +829,25 @@ func vrCaseSignSmallRS(c *vrCase) {
 		}
 		if _, ws, _, ok := vrRefSign(d2, e2, [][]byte{vrB32(k)}); ok && ws.Cmp(sT) == 0 {
 			vrCheckSign(c, d2, vrB32(e2), [][]byte{vrB32(k)}, 0, "small-s")
+		}
+	}
+}
+
+// vrCaseSignShortKey: private keys handed over in fewer than 32 bytes (the value is what counts: big-endian, left-padded).
+func vrCaseSignShortKey(c *vrCase) {
+	for _, l := range []int{1, 2, 3, 8, 16, 17, 30, 31} {
+		for rep := 0; rep < 3; rep++ {
+			db := vrBytes(c.rng, l)
+			if rep == 0 {
+				db[0] |= 0x80
+			}
+			d := vrInt(db)
+			if d.Sign() == 0 {
+				db[l-1] = 1
+				d = vrInt(db)
+			}
+			k := vrRandNonce(c.rng)
+			vrCheckSignPriv(c, d, db, vrRandE(c.rng), [][]byte{vrB32(k)}, 0, fmt.Sprintf("short-key-%d", l))
 		}
 	}
 }
@@ -1761,6 +1784,7 @@ func TestVerifReplay(t *testing.T) {
 	e.run("SignHashed", vrCaseSignHashed)
 	e.run("SignHashed.k-zero", vrCaseSignKZero)
 	e.run("SignHashed.small-rs", vrCaseSignSmallRS)
+	e.run("SignHashed.short-key", vrCaseSignShortKey)
 	e.run("SignHashed.invalid-key", vrCaseSignInvalidKey)
 	e.run("VerifyHashed", vrCaseVerifyHashed)
 	e.run("VerifyHashed.small-t", vrCaseVerifySmallT)
